@@ -76,6 +76,13 @@ def leftPadHex (s : Bytes) (totalLen : Int) : Out Bytes :=
     if totalLen < 0 then .panic else .ok (s.drop (s.length - totalLen.toNat))
   else .ok (List.replicate (totalLen.toNat - s.length) 48 ++ s)
 
+/-- `MustHexPadLeft(hexStr, size)`: `hex.DecodeString(LeftPadHex(hexStr, size*2))`, panicking (documented) when that fails -/
+def mustHexPadLeft (s : Bytes) (size : Int) : Out Bytes :=
+  match leftPadHex s (size * 2) with
+  | .ok padded => (match hexDecode padded with | some b => .ok b | none => .panic)
+  | .err e => .err e
+  | .panic => .panic
+
 /-- `ParseHexTimestamp`: `for len(ts) < 16 { ts = "0" + ts }; hex.DecodeString(ts)` -/
 def parseHexTimestamp (ts : Bytes) : Out Bytes :=
   let padded := List.replicate (16 - ts.length) 48 ++ ts
